@@ -420,7 +420,7 @@ func (fv *FuncVC) resolveSourceName(env *SpecEnv, name string) (Val, bool) {
 			var n int
 			fmt.Sscanf(name[2:], "%d", &n)
 			for _, l := range fr.loops {
-				if l.ordinal == n {
+				if fv.specOrdinal(fr, l) == n {
 					li = l
 				}
 			}
